@@ -937,7 +937,7 @@ def correspond(ctx, use_driver=True, volume=None):
     env = Env(ctx, use_driver)
     if env.use_driver:
         inverse_stream(ctx, 80 if ctx.tier == "quick" else 800)
-    n = volume or (2000 if ctx.tier == "quick" else 40000)
+    n = volume or (2000 if ctx.tier == "quick" else 22000)
     for _ in range(n):
         seed = ctx.rng.getrandbits(48)
         try:
@@ -948,7 +948,7 @@ def correspond(ctx, use_driver=True, volume=None):
         ctx.count("stream:" + name)
         if key is not None:
             ctx.case(sample=dict(case_seed=seed, stream=name, key=str(key)[:200]), nontrivial_key=key)
-    for _ in range(40 if ctx.tier == "quick" else 900):
+    for _ in range(40 if ctx.tier == "quick" else 600):
         seed = ctx.rng.getrandbits(48)
         try:
             key, name = run_case(env, seed, ctx.count, stream="history")
